@@ -46,6 +46,10 @@ pub struct ModSpec {
     /// Module::stack adds the module's own elements as one block (`stack.append(block)`) instead of one by one
     #[serde(default)]
     pub own_as_block: bool,
+    /// the handler additionally emits this many messages (ids 4000..) with delays 2, 0, 1, 2, 0, 1, .. ms in one go:
+    /// many of them share an arrival time, and the times are not emitted in ascending order
+    #[serde(default)]
+    pub handler_burst: u8,
 }
 
 #[derive(Clone, Debug, Serialize, Deserialize)]
@@ -115,7 +119,10 @@ struct M {
     seen: usize,
     restarted: bool,
     own_as_block: bool,
+    handler_burst: u8,
 }
+
+const BURST_DELAYS_MS: [u64; 3] = [2, 0, 1];
 
 impl Module for M {
     fn stack(&self, mut stack: ProcessingStack) -> ProcessingStack {
@@ -166,6 +173,10 @@ impl Module for M {
             net::log("send", id as i64 + 3000, 0);
             send(Message::default().id(id + 3000), "out");
         }
+        for j in 0..self.handler_burst as u16 {
+            net::log("send", 4000 + j as i64, 0);
+            send_in(Message::default().id(4000 + j), "out", Duration::from_millis(BURST_DELAYS_MS[j as usize % 3]));
+        }
         self.seen += 1;
         if let Some((n, delay)) = self.restart {
             if self.seen == n && !self.restarted {
@@ -198,6 +209,16 @@ fn rec(path: &str, kind: &str, a: i64, b: i64, now: u128) -> Rec {
         now,
         a,
         b,
+    }
+}
+
+/// The burst is only emitted by modules that never shut down: a delayed message whose departure falls into the
+/// downtime of its sender is dropped (C09), which this check does not model.
+fn burst_of(m: &ModSpec) -> u8 {
+    if restart_of(m).is_some() {
+        0
+    } else {
+        m.handler_burst % 48
     }
 }
 
@@ -248,6 +269,7 @@ pub fn run_case(case: &Case) -> Result<(bool, Vec<&'static str>), Failure> {
                 seen: 0,
                 restarted: false,
                 own_as_block: m.own_as_block,
+                handler_burst: burst_of(m),
             },
         );
     }
@@ -286,11 +308,12 @@ pub fn run_case(case: &Case) -> Result<(bool, Vec<&'static str>), Failure> {
     // expected log of the target modules, and the expected sink sequence
     timeline.sort();
     let mut want: Vec<Rec> = Vec::new();
-    let mut want_sink: Vec<i64> = Vec::new();
+    // (arrival time at the sink, id); emission order is kept among equal arrival times
+    let mut want_sink: Vec<(u128, i64)> = Vec::new();
     let mut consumed_early = false;
     let mut wake_events = 0;
     let stack_of = |i: usize| -> Vec<Elem> { case.global.iter().cloned().chain(mods[i].own.iter().cloned()).collect() };
-    let bracket = |i: usize, now: u128, msg: Option<u16>, handler: Option<(&str, i64)>, want: &mut Vec<Rec>, sink: &mut Vec<i64>, consumed_early: &mut bool| {
+    let bracket = |i: usize, now: u128, msg: Option<u16>, handler: Option<(&str, i64)>, want: &mut Vec<Rec>, sink: &mut Vec<(u128, i64)>, consumed_early: &mut bool| {
         let stack = stack_of(i);
         let p = names[i].as_str();
         let mut cur = msg;
@@ -313,7 +336,7 @@ pub fn run_case(case: &Case) -> Result<(bool, Vec<&'static str>), Failure> {
                     }
                     Elem::AlsoSend => {
                         want.push(rec(p, "send", id as i64 + 1000, 0, now));
-                        sink.push(id as i64 + 1000);
+                        sink.push((now, id as i64 + 1000));
                     }
                     Elem::SendOnEnd => end_sends[k] = Some(id),
                 }
@@ -325,7 +348,11 @@ pub fn run_case(case: &Case) -> Result<(bool, Vec<&'static str>), Failure> {
                 want.push(rec(p, "h-msg", id as i64, 0, now));
                 if mods[i].handler_sends {
                     want.push(rec(p, "send", id as i64 + 3000, 0, now));
-                    sink.push(id as i64 + 3000);
+                    sink.push((now, id as i64 + 3000));
+                }
+                for j in 0..burst_of(mods[i]) as i64 {
+                    want.push(rec(p, "send", 4000 + j, 0, now));
+                    sink.push((now + BURST_DELAYS_MS[j as usize % 3] as u128 * 1_000_000, 4000 + j));
                 }
             }
             (None, _, Some((kind, a))) => want.push(rec(p, kind, a, 0, now)),
@@ -335,7 +362,7 @@ pub fn run_case(case: &Case) -> Result<(bool, Vec<&'static str>), Failure> {
             want.push(rec(p, "ee", k as i64, 0, now));
             if let Some(id) = end_sends[k] {
                 want.push(rec(p, "send", id as i64 + 2000, 0, now));
-                sink.push(id as i64 + 2000);
+                sink.push((now, id as i64 + 2000));
             }
         }
         handled
@@ -459,9 +486,10 @@ pub fn run_case(case: &Case) -> Result<(bool, Vec<&'static str>), Failure> {
         net::fmt_recs(&want[want.len().saturating_sub(5)..])
     );
     // the global stack is installed on the sink as well: ids are rewritten / messages consumed there too
+    want_sink.sort_by_key(|(t, _)| *t); // stable: program order among equal arrival times
     let want_sink: Vec<i64> = want_sink
         .into_iter()
-        .filter_map(|id| {
+        .filter_map(|(_, id)| {
             let mut cur = id as u16;
             for e in &case.global {
                 match e {
@@ -508,6 +536,9 @@ pub fn run_case(case: &Case) -> Result<(bool, Vec<&'static str>), Failure> {
     }
     if was_down.iter().any(|d| *d) {
         labels.push("shutdown-and-restart");
+    }
+    if mods.iter().any(|m| burst_of(m) > 20) && got.iter().any(|r| r.kind == "send" && r.a >= 4020) {
+        labels.push("burst>20-with-ties-and-descending-times");
     }
     if mods.iter().any(|m| m.own_as_block && m.own.len() > g && g > 0) {
         labels.push("module-block-longer-than-global-stack");
@@ -568,8 +599,9 @@ impl Prop for C14 {
             proptest::bool::weighted(0.2),
             proptest::option::weighted(0.35, (0u8..4, 0u8..6)),
             any::<bool>(),
+            prop_oneof![3 => Just(0u8), 1 => 21u8..48, 1 => 1u8..21],
         )
-            .prop_map(|(own, stages, wakes, msgs, handler_sends, end_err, pending_join, restart, own_as_block)| ModSpec {
+            .prop_map(|(own, stages, wakes, msgs, handler_sends, end_err, pending_join, restart, own_as_block, handler_burst)| ModSpec {
                 own,
                 stages,
                 wakes,
@@ -579,6 +611,7 @@ impl Prop for C14 {
                 pending_join,
                 restart,
                 own_as_block,
+                handler_burst,
             });
         (proptest::collection::vec(elem, 0..5), proptest::collection::vec(m, 1..3))
             .prop_map(|(global, mods)| Case { global, mods })
